@@ -320,7 +320,7 @@ def _imports(jedi, env, out, cfg, base, only=None):
     for label, d in spots:
         for name in MODNAMES:
             what = ['import', label, name]
-            if only is not None and only != what:
+            if only is not None and only not in (what, ['import-after-syspath-edit', label, name]):
                 continue
             out.n['evals'] += 1
             out.n['imports'] += 1
@@ -353,6 +353,32 @@ def _imports(jedi, env, out, cfg, base, only=None):
                          {'project': repr(pval), 'sys_path': repr(sp), 'added': repr(ad),
                           'smart': cfg['smart'], 'script': script_path, 'composed_path': composed,
                           'jedi': res, 'PathFinder': exp})
+            # the same import in a buffer that edits sys.path for itself (`sys.path.append(V)`,
+            # honoured by jedi for the imports of that module only): resolving it must leave the
+            # Script's effective path - the composition checked above - exactly as it was
+            what2 = ['import-after-syspath-edit', label, name]
+            if only is not None and only != what2:
+                continue
+            out.n['evals'] += 1
+            vend = os.path.join(base, 'vendx')
+            os.makedirs(vend, exist_ok=True)
+
+            def run2():
+                project = jedi.Project(pval, sys_path=sp, added_sys_path=ad,
+                                       smart_sys_path=cfg['smart'])
+                text = 'import sys\nsys.path.append(%r)\nimport %s\n%s\n' % (vend, name, name)
+                script = jedi.Script(text, path=script_path, environment=env, project=project)
+                before = list(script._inference_state.get_sys_path(add_init_paths=True))
+                script.infer(3, 7 + len(name) - 1)
+                script.goto(4, 0, follow_imports=True)
+                after = list(script._inference_state.get_sys_path(add_init_paths=True))
+                return before, after
+            ok, r = _guard(out, what2, run2)
+            if ok and (r[0] != r[1] or r[0] != composed):
+                out.fail('effective-path-changed-by-resolving-an-import@get_sys_path', what2,
+                         {'project': repr(pval), 'sys_path': repr(sp), 'added': repr(ad),
+                          'smart': cfg['smart'], 'script': script_path, 'plain_buffer': composed,
+                          'before_query': r[0], 'after_query': r[1]})
 
 
 HIST_SYS = [None, ['str', ['b']]]
